@@ -666,6 +666,8 @@ const (
 	VbDoubleRespond       // post the response twice (second must be refused)
 	VbCaseVariantThenOK   // post a response for the id in upper case (must be refused), then the right one
 	VbIllegalThenOK       // make protocol-illegal calls (init/error after next, error for a stale id), then respond
+	VbOversize            // post a response longer than the limit (413), then go on polling
+	VbNextTwice           // poll next a second time before responding (same invocation again), then respond
 )
 
 func VerifNewWorld(iop interop.Server, nExt int, subs []string) *VerifWorld {
@@ -756,8 +758,12 @@ func (w *verifWorld) plannedRuntime() func(p *verifProc) {
 			if i < len(plan) {
 				b = plan[i]
 			}
-			resp := verifNondetBytes("runtime payload")
-			verifAssume(len(resp) <= 6*1024*1024+100)
+			resp := verifNondetPayload("runtime payload")
+			if b == VbOversize {
+				verifAssume(len(resp) > 6*1024*1024+100)
+			} else {
+				verifAssume(len(resp) <= 6*1024*1024+100)
+			}
 			w.rtResponses = append(w.rtResponses, string(resp))
 			st := func(r *verifRec) int { w.rtStatuses = append(w.rtStatuses, fmt.Sprint(r.status)); return r.status }
 			switch b {
@@ -785,6 +791,18 @@ func (w *verifWorld) plannedRuntime() func(p *verifProc) {
 			case VbDoubleRespond:
 				st(w.runtimeResponse(who, id, resp))
 				st(w.runtimeResponse(who, id, []byte("second-payload")))
+			case VbOversize:
+				st(w.runtimeResponse(who, id, resp))
+			case VbNextTwice:
+				rec2 := w.runtimeNext(who)
+				w.rtBodies = append(w.rtBodies, string(rec2.body))
+				w.rtResponses = append(w.rtResponses, string(resp))
+				if rec2.status != 200 || rec2.hdr.Get("Lambda-Runtime-Aws-Request-Id") != id {
+					w.note(who, "second-next-differs", "")
+				}
+				if st(w.runtimeResponse(who, id, resp)) != 202 {
+					return
+				}
 			case VbCaseVariantThenOK:
 				st(w.runtimeResponse(who, strings.ToUpper(id), []byte("variant-payload")))
 				st(w.runtimeResponse(who, id, resp))
